@@ -468,6 +468,110 @@ def _classes(case):
     return out
 
 
+def check_edit_program(case):
+    """A sequence of edits, each applied to the file the previous one wrote (the output of an edit is a well-formed SINEX solution,
+    so it is in the quantifier again); after every step the file is compared with a model: the set of surviving parameters of
+    the ORIGINAL solution."""
+    import shutil
+    g = repo.gnss()
+    spec = _spec(case)
+    SX.write("in.snx", spec)
+    shutil.copy("in.snx", "orig.snx")
+    orig = SX.parse("orig.snx")
+    recs = SX.records(spec)
+    est0 = SX.parse_estimates(orig["blocks"]["SOLUTION/ESTIMATE"])
+    codes = sorted({s["code"] for s in spec["stations"]}, key=[s["code"] for s in spec["stations"]].index)
+    keep = list(range(len(recs)))           # model: indices of the original parameters still in the file
+    gone = set()                            # model: station codes removed so far
+    has_vel = bool(spec["vel"])
+    zeros_done = False
+    steps = 0
+    for k, op in enumerate(case["program"]):
+        clock = case["clocks"][k % len(case["clocks"])]
+        what = None
+        if op[0] == "remove" and not zeros_done:
+            left = [c for c in codes if c not in gone]
+            remove = [c for i, c in enumerate(codes) if (op[1] >> i) & 1 and c not in gone]
+            if len(remove) >= len(left):
+                continue
+            out = _run(g.remove_stns_sinex, g, clock, "in.snx", list(remove))
+            gone.update(remove)
+            keep = [i for i in keep if recs[i]["code"] not in gone]
+            what = "remove_stns_sinex(%s)" % ",".join(remove)
+        elif op[0] == "velocity" and has_vel and not zeros_done:
+            out = _run(g.remove_velocity_sinex, g, clock, "in.snx")
+            has_vel = False
+            keep = [i for i in keep if recs[i]["type"].startswith("STA")]
+            what = "remove_velocity_sinex"
+        elif op[0] == "zeros" and not zeros_done:
+            out = _run(g.remove_matrixzeros_sinex, g, clock, "in.snx")
+            zeros_done = True               # (lines are now missing from the triangle: no further edit is in the quantifier)
+            what = "remove_matrixzeros_sinex"
+        else:
+            continue
+        steps += 1
+        where = "step %d (%s) of an edit sequence" % (steps, what)
+        hout = out["header"]
+        # (fixed columns up to the constraint code; the list of solution contents behind it legitimately loses its V)
+        if not SX.HEADER_RE.match(hout) or (has_vel or not spec["vel"]) and len(hout.rstrip()) != len(orig["header"].rstrip()):
+            raise Fail("%s: header line is not fixed-width SINEX" % where, expected=orig["header"], observed=hout, bucket="program header width")
+        if hout[60:65] != "%05d" % len(keep):
+            raise Fail("%s: header parameter count does not match the remaining estimates" % where, expected="%05d" % len(keep),
+                       observed=hout[60:65], bucket="program header count")
+        if hout[:15] != orig["header"][:15] or hout[27:60] != orig["header"][27:60]:
+            raise Fail("%s: header fields other than creation time, count and contents changed" % where, expected=orig["header"], observed=hout,
+                       bucket="program header fields")
+        for name, col in (("SITE/ID", (1, 5)), ("SOLUTION/EPOCHS", (1, 5))):
+            want = [ln for ln in SX.data(orig["blocks"][name]) if ln[col[0]:col[1]] not in gone]
+            if SX.data(out["blocks"].get(name, [])) != want:
+                raise Fail("%s: %s block is not the original block minus the removed stations" % (where, name), expected=want[:6],
+                           observed=out["blocks"].get(name, [])[:6], bucket="program " + name)
+        est = SX.parse_estimates(out["blocks"].get("SOLUTION/ESTIMATE", []))
+        if [e["rest"] for e in est] != [est0[i]["rest"] for i in keep]:
+            raise Fail("%s: estimates are not exactly the surviving estimates of the original solution, in order" % where,
+                       expected=[est0[i]["rest"] for i in keep][:4], observed=[e["rest"] for e in est][:4], bucket="program estimates content")
+        if [e["index"] for e in est] != list(range(1, len(keep) + 1)):
+            raise Fail("%s: estimates are not consecutively renumbered from 1" % where, observed=[e["index"] for e in est][:8],
+                       bucket="program estimates numbering")
+        if out["title"].get("SOLUTION/MATRIX_ESTIMATE") != orig["title"]["SOLUTION/MATRIX_ESTIMATE"]:
+            raise Fail("%s: matrix block title changed" % where, expected=orig["title"]["SOLUTION/MATRIX_ESTIMATE"],
+                       observed=out["title"].get("SOLUTION/MATRIX_ESTIMATE"), bucket="program matrix title")
+        try:
+            el = SX.parse_matrix(out["blocks"].get("SOLUTION/MATRIX_ESTIMATE", []))
+        except SX.Malformed as e:
+            raise Fail("%s: matrix block is malformed: %s" % (where, e), bucket="program matrix malformed")
+        _check_matrix(el, _expected_cov(spec, keep), spec["tri"], where)
+        os.replace("output.snx", "in.snx")
+    if steps < 2:
+        raise Discard()
+
+
+@st.composite
+def programs(draw):
+    spec = draw(specs(max_sets=10))
+    ncodes = len({s["code"] for s in spec["stations"]})
+    full = (1 << ncodes) - 1
+    ops = []
+    for _ in range(draw(st.integers(2, 5))):
+        kind = draw(st.sampled_from(["remove", "remove", "remove", "velocity"]))
+        ops.append(["remove", draw(st.one_of(st.integers(0, full), st.sampled_from([0, 1, 1 << (ncodes - 1)])))] if kind == "remove" else ["velocity"])
+    if draw(st.booleans()):
+        ops.append(["zeros"])
+    return {"spec": spec, "program": ops, "clocks": [draw(clocks()) for _ in range(3)]}
+
+
+def _classes_prog(case):
+    ops = [o[0] for o in case["program"]]
+    out = ["ops:%d" % len(ops), "vel" if case["spec"]["vel"] else "no-vel", "tri:" + case["spec"]["tri"]]
+    if case["spec"]["vel"] and "velocity" in ops and "remove" in ops:
+        out.append("velocity before removal" if ops.index("velocity") < max(i for i, o in enumerate(ops) if o == "remove") else "removal before velocity")
+    if ops.count("remove") >= 2:
+        out.append("repeated removal")
+    if "zeros" in ops:
+        out.append("zeros last")
+    return out
+
+
 SUBCHECKS = [
     SubCheck("remove_stations", check_remove_stations, strategy=cases(), nontrivial=_nt, classes=_classes, quick=240, thorough=12000,
              shards_quick=8, shards_thorough=16,
@@ -483,4 +587,8 @@ SUBCHECKS = [
              shards_thorough=16, rule="remove_matrixzeros_sinex: output = input minus all-zero matrix lines, every line on its own line"),
     SubCheck("readers", check_readers, strategy=cases(), classes=_classes, quick=240, thorough=12000, shards_quick=4, shards_thorough=16,
              rule="read_sinex_estimate / read_sinex_matrix / read_sinex_sites return exactly the values written"),
+    SubCheck("edit_programs", check_edit_program, strategy=programs(), classes=_classes_prog, quick=160, thorough=8000, shards_quick=8, shards_thorough=16,
+             rule="model-based: 2..6 edits in sequence (station removals with arbitrary sets, velocity removal, matrix-zero removal last), "
+                  "each reading the file the previous one wrote; after every step header count / width, SITE/ID, EPOCHS, estimates and "
+                  "covariance equal the surviving parameters of the ORIGINAL solution; non-trivial = at least two effective edits"),
 ]
